@@ -311,17 +311,31 @@ pub fn run(cat: &Catalog, cfg: &Config, stats: &mut Stats, run_seed: u64) -> Vec
                 end += 1;
             }
             if end - start >= 2 {
-                let input = seg[offs[start]..].to_vec();
-                let enc_len: usize = records[start..end].iter().map(|r| r.bytes.len()).sum();
-                let mut c = Case::new("C07", "batch", cat.entries[records[start].entry].name, input);
-                c.enc_len = enc_len;
-                c.batch = records[start..end]
-                    .iter()
-                    .map(|r| (cat.entries[r.entry].name.to_string(), r.val.clone()))
-                    .collect();
-                c.fault = format!("records #{start}..#{end} read through one context");
-                c.fault_kind = "suffix".into();
-                run.submit(c, true);
+                // values written one after another into one stream ...
+                let vals: Vec<(usize, Val)> =
+                    records[start..end].iter().map(|r| (r.entry, r.val.clone())).collect();
+                let written = contain(u64::MAX, || {
+                    let mut ctx = desert::SerializationContext::new(Vec::new());
+                    for (ei, v) in &vals {
+                        (cat.entries[*ei].encode_in)(v, &mut ctx)?;
+                    }
+                    Ok(ctx.into_output())
+                })
+                .0;
+                if let crate::exec::Outcome::Ok(mut input) = written {
+                    // ... are read back one after another through one context, whatever follows
+                    let enc_len = input.len();
+                    input.extend_from_slice(&seg[offs[end - 1] + records[end - 1].stored.len()..]);
+                    let mut c = Case::new("C07", "batch", cat.entries[records[start].entry].name, input);
+                    c.enc_len = enc_len;
+                    c.batch = records[start..end]
+                        .iter()
+                        .map(|r| (cat.entries[r.entry].name.to_string(), r.val.clone()))
+                        .collect();
+                    c.fault = format!("records #{start}..#{end} written into one stream and read through one context");
+                    c.fault_kind = "suffix".into();
+                    run.submit(c, true);
+                }
             }
             start = end.max(start + 1);
         }
